@@ -6,8 +6,8 @@
 EXTENDS Tagged, Universe, Serialization, Json, IOUtils
 
 CONSTANTS Deviations
-VARIABLES tags, addl, d, phase
-vars == <<tags, addl, d, phase>>
+VARIABLES tags, addl, fbd, d, phase
+vars == <<tags, addl, fbd, d, phase>>
 
 Emit == "EMIT" \in DOMAIN IOEnv /\ IOEnv.EMIT = "1"
 ASSUME Emit => PrintT(ToJson([header |-> TRUE, classes |-> UClasses, enums |-> UEnums, senv |-> UStrAttr, aliasers |-> UAliasers]))
@@ -20,14 +20,14 @@ KeyPool == {"a", "b", "c", "zz"}
 DataPool == {DObj(<<>>), DInt(1), DArr(<<>>), DNull}
             \cup {DObj(<< <<k1, v1>> >>) : k1 \in KeyPool, v1 \in Vals}
             \cup {DObj(<< <<k1, v1>>, <<k2, v2>> >>) : k1 \in {"a", "zz"}, k2 \in {"b", "zz", "c"}, v1 \in {DInt(3), DStr("a")}, v2 \in {DStr("a"), DNull}}
-CtxOf(a) == Ctx(Opt(a, FALSE, FALSE, "id"))
+CtxOf(a) == Ctx(Opt(a, fbd, FALSE, "id"))
 
-Init == tags \in TagSets /\ addl \in BOOLEAN /\ d \in {x \in DataPool : x.k # "obj" \/ \A i, j \in DOMAIN x.o : i # j => x.o[i][1] # x.o[j][1]}
+Init == tags \in TagSets /\ addl \in BOOLEAN /\ fbd \in BOOLEAN /\ d \in {x \in DataPool : x.k # "obj" \/ \A i, j \in DOMAIN x.o : i # j => x.o[i][1] # x.o[j][1]}
         /\ phase = "start"
 M == TaggedM(CtxOf(addl), tags, d, Deviations)
 R == TaggedR(CtxOf(addl), tags, d)
-Eval == /\ phase = "start" /\ phase' = "done" /\ UNCHANGED <<tags, addl, d>>
-        /\ Emit => PrintT(ToJson([tags |-> tags, addl |-> addl, data |-> d, kind |-> M.kind, expect |-> M.r,
+Eval == /\ phase = "start" /\ phase' = "done" /\ UNCHANGED <<tags, addl, fbd, d>>
+        /\ Emit => PrintT(ToJson([tags |-> tags, addl |-> addl, fbd |-> fbd, data |-> d, kind |-> M.kind, expect |-> M.r,
                                   devkind |-> TaggedM(CtxOf(addl), tags, d, {"ctorvalueerror"}).kind,
                                   ser |-> IF M.kind = "ok" /\ ~IsUnspec(M.r)
                                           THEN TaggedSer(CtxOf(addl), tags, M.r.v, Ser) ELSE DNull]))
